@@ -80,6 +80,23 @@ struct MV
     explicit MV(A&& a, B&&... b);
 };
 
+// tracked container of V values, for the list helpers push_back<C,A> / emplace_back<C,A> / create<T> used as rule functors
+struct Bag
+{
+    std::vector<V> items;
+    long id;
+    Bag() : id(S.fresh()) { ++S.objs_alive; }
+    struct raw {};
+    Bag(raw, long i) : id(i) { ++S.objs_alive; }
+    Bag(const Bag& o) : items(o.items), id(o.id) { ++S.objs_alive; ++S.copies; S.ev += "K"; put(id); S.ev += ";"; }
+    Bag(Bag&& o) noexcept : items(std::move(o.items)), id(o.id) { ++S.objs_alive; ++S.moves; if (o.id > 0) o.id = -o.id; }
+    Bag& operator=(const Bag& o) { if (this != &o) { items = o.items; id = o.id; ++S.copies; S.ev += "K"; put(id); S.ev += ";"; } return *this; }
+    Bag& operator=(Bag&& o) noexcept { if (this != &o) { items = std::move(o.items); id = o.id; ++S.moves; if (o.id > 0) o.id = -o.id; } return *this; }
+    ~Bag() { --S.objs_alive; }
+    void push_back(const V& v) { items.push_back(v); }
+    void emplace_back(V&& v) { items.emplace_back(std::move(v)); }
+};
+
 template<class T> struct is_tracked : std::false_type {};
 template<int Tag> struct is_tracked<TV<Tag>> : std::true_type {};
 template<> struct is_tracked<MV> : std::true_type {};
@@ -100,6 +117,14 @@ void describe(A&& a)
         }
         else
             S.ev += "&";     // not handed over as a movable value
+    }
+    else if constexpr (std::is_same_v<T, Bag>)
+    {
+        S.ev += "b"; put(a.id); S.ev += "[";
+        for (size_t i = 0; i < a.items.size(); ++i) { if (i) S.ev += "."; put(a.items[i].id); }
+        S.ev += "]";
+        if constexpr (!std::is_const_v<std::remove_reference_t<A>> && std::is_rvalue_reference_v<A&&>) { Bag taken(std::move(a)); (void)taken; }
+        else S.ev += "&";
     }
     else if constexpr (std::is_same_v<T, ctpg::term_value<char>>)
     {
@@ -151,12 +176,12 @@ MV::MV(A&& a, B&&... b) : id(S.fresh())
 
 template<class T> T make_value()
 {
-    if constexpr (is_tracked<T>::value) return T(typename T::raw{}, S.fresh());
+    if constexpr (is_tracked<T>::value || std::is_same_v<T, Bag>) return T(typename T::raw{}, S.fresh());
     else return T(S.fresh());
 }
 template<class T> long value_id(const T& v)
 {
-    if constexpr (is_tracked<T>::value) return v.id; else return long(v);
+    if constexpr (is_tracked<T>::value || std::is_same_v<T, Bag>) return v.id; else return long(v);
 }
 
 // rule functor: logs "r<rule>(args)=<id>;"
